@@ -211,6 +211,33 @@ def run(ctx, tier, seed, scale=1.0):
                 ctx.count("nest-outcome:" + r.fields[0])
                 if r.fields[0].startswith("accepted-but"):
                     ctx.violation("text-idempotence:%s" % r.fields[0], {"probe": [vlib._short(str(z), 60) for z in c], "why": r.fields[1][:200]})
+    # histories: the outcome for a text must not depend on what the same thread parsed before (accepted, rejected, too deep, malformed)
+    US = "\x1f"
+    specs = [("[", 1, "1", "]"), ("[", 400, "1", "]"), ("[", 500, "", "]"), ("[", 511, "1", "]"), ("[", 600, "1", "]"), ("[", 5000, "", ""), ('{"a":', 300, "1", "}"),
+             ('{"a":', 700, "1", "}"), ("[", 3, "1e999", "]"), ("[", 2, "tru", "]"), ('"', 1, "\\u12", '"'), ("[", 512, "1", "]"), ("[", 513, "1", "]"), ("", 1, "{", ""),
+             ("[", 10, '"a', ""), ("", 1, "-", "")]
+    hist, hmeta = [], []
+    for _ in range(int((60 if quick else 2000) * scale) + 1):
+        seq = [rng.choice(specs) for _ in range(rng.randrange(8, 40))]
+        hist.append(["Q"] + [US.join([a, str(n), m, z]) for a, n, m, z in seq])
+        hmeta.append(seq)
+    hres, hf2 = vlib.run_cases(exe, hist, "c18h", timeout_s=300, batch=2)
+    ctx.harness_failures += hf2
+    vlib.judge_crashes(ctx, exe, hist, hres, "c18h", timeout_s=300, describe=lambda k: {"history": [list(x) for x in hmeta[k]]})
+    for seq, r in zip(hmeta, hres):
+        ctx.evaluations += 1
+        if r.status != "ok":
+            continue
+        ctx.nontriv(repr(seq))
+        first = {}
+        for i, (sp, oc) in enumerate(zip(seq, r.fields)):
+            ctx.count("history-texts")
+            if sp not in first:
+                first[sp] = (i, oc)
+            elif first[sp][1] != oc:
+                ctx.violation("outcome-depends-on-history", {"history": [list(x) for x in seq[:i + 1]], "text": list(sp), "first_outcome": first[sp][1],
+                                                             "later_outcome": oc, "positions": [first[sp][0], i]})
+                break
     ctx.rule = ("V = random value tree (depth<=5, width<=5, strings over all byte values, ints at 2^31/2^53/2^63 boundaries) built through the C++ API; "
                 "T = valid JSON text / mutant / random bytes / hand-written hostile text; N = nesting probe; a case is non-trivial unless it is a bare "
                 "int/bool/null; distinct by content")
